@@ -159,6 +159,11 @@ Fixpoint pm_last_service (l : list pm_obj) : option pm_obj :=
       end
   end.
 
+(* THE ONE PLACE that says the permission frame is shared by all evaluations of a GetFilterTargets call.
+   With repo_patches/C18-fresh-permission-frame.diff applied this becomes [None] (and pm_frame_sv_in / _none /
+   _nil in PmProofs.v become trivial). *)
+Definition pm_frame_sv (l : list pm_obj) : option pm_obj := pm_last_service l.
+
 (* ---------------------------------------------------------------- HasPermission / CheckPermission *)
 Record pm_entry := { pe_perm : pm_str; pe_filter : option pm_filter }.
 
@@ -226,7 +231,7 @@ Definition pm_name_one (pf : option pm_filter) (inv : list pm_obj) (t : pm_type)
   match pm_lookup inv t n with
   | None => inl PmErrNoObj
   | Some o =>
-      match pm_eval_opt pf (pm_last_service acc) o with
+      match pm_eval_opt pf (pm_frame_sv acc) o with
       | PmT => inr o
       | PmF => inl PmErrDenied
       | PmE => inl PmErrScript
@@ -398,7 +403,7 @@ Definition pm_filter_targets (fast : bool) (u : list pm_entry) (perm : pm_str) (
                 match pm_qtype_in tys qt with
                 | None => (c1, PmErr PmErrTypeNotInQd)
                 | Some t =>
-                    (true, match pm_by_filter fast pf (pm_last_service res) inv t (pq_filter q) (pq_fvars q) with
+                    (true, match pm_by_filter fast pf (pm_frame_sv res) inv t (pq_filter q) (pq_fvars q) with
                            | inl e => PmErr e
                            | inr l => PmOk (res ++ l)
                            end)
